@@ -25,6 +25,7 @@ func UFBool(name string, args ...uint64) bool
 func Concrete(x uint64) uint64
 func ConcreteBool(b bool) bool
 func IsSymbolic() bool
+func IsConcrete64(x uint64) bool
 func Yield()
 func Ite64(c bool, a, b uint64) uint64
 func HexString(n int, limbs ...uint64) string
